@@ -97,6 +97,7 @@ def install(ctx, module, k):
         ctx.ensure(module, name, cond)
     for name in ("b_to_epsilon_old", "epsilon_to_b_old"):
         observe.watch("%s.%s" % (m, name), getattr(module, name))
+        ctx.hold(module, name)
 
 
 def setup(ctx):
@@ -150,6 +151,9 @@ def case_strain(ctx, p):
             e3 = mod.b_to_epsilon(Bs, c)
             B3 = mod.epsilon_to_b(e3, c)
             mon.close("workload:%s.epsilon_to_b(b_to_epsilon(B))=B" % m, B3, Bs, rtol=TOL)
+            if fk % 4 == 0:
+                ctx.probe_alias(mod.epsilon_to_b, list(eps), c)
+                ctx.probe_alias(mod.b_to_epsilon, Bs, c)
             Bo = mod.epsilon_to_b_old(list(eps), c)
             eo = mod.b_to_epsilon_old(Bo, c)
             mon.close("workload:%s.b_to_epsilon_old(epsilon_to_b_old(eps))=eps" % m, eo, eps, rtol=0, atol=TOL)
